@@ -535,6 +535,12 @@ fn run_case(seed: u64, idx: u64, _tier: Tier, out: &mut CaseOut) {
     }
     p.wide_permille = *rng.pick(&[0usize, 80, 250]);
     p.comb_permille = *rng.pick(&[0usize, 40, 120]);
+    // ids and named anchors add zero-width markers that travel with the text; they
+    // must not cost any of it
+    if rng.chance(1, 3) {
+        p.id_permille = *rng.pick(&[60usize, 250]);
+        p.a_name = true;
+    }
     let w = pick_width(&mut rng, 200);
     if rng.chance(1, 4) {
         p.boundary = Some(w.min(40));
